@@ -241,7 +241,7 @@ def instrumented():
             continue
         spec = json.load(open(os.path.join(d, fn)))
         out = os.path.join(BUILD, "instr", fn[:-5] + ".go")
-        rc, o = sh([tool, "-in", os.path.join(REPO, spec["file"]), "-out", out, "-mutex", spec.get("mutex", "")])
+        rc, o = sh([tool, "-in", os.path.join(REPO, spec["file"]), "-out", out, "-mutex", spec.get("mutex", ""), "-fields", spec.get("fields", "")])
         if rc != 0:
             INSTR_FAILED[fn[:-5]] = o.strip()
             continue
